@@ -881,3 +881,15 @@ Proof.
   intros H. unfold filter_group_by. destruct l as [|a t]; [destruct H as [v [[] _]]|].
   rewrite group_go_err; trivial.
 Qed.
+
+(* the neighbour check is blind across a `none`: an `undefined` key (which sorts behind none) is
+   never compared with the regular keys in front of the none.  This is why the comparability
+   theorems speak of keys that sort in front of none, or of inputs without none. *)
+Lemma sort_undefined_behind_none_witness :
+  exists l r, Forall wf l /\ filter_sort l None = ROk r /\
+    exists x y, In x l /\ In y l /\ is_none x = false /\ is_none y = false /\ cmpb x y = false.
+Proof.
+  exists [VInt U64 1; VNone; VUndef], [VInt U64 1; VNone; VUndef].
+  split; [repeat constructor|]. split; [vm_compute; reflexivity|].
+  exists (VInt U64 1), VUndef. cbn. repeat split; auto.
+Qed.
